@@ -59,10 +59,15 @@ func lintCheck(r *hx.Rng, n int) (fails []failure, colCases []string, count int)
 		line := 0
 		put := func(s string) { sb.WriteString(s); sb.WriteByte('\n'); line++ }
 		put("on:")
-		put("  push:")
+		// every event that takes branch / path filters
+		event := []string{"push", "push", "pull_request", "pull_request_target"}[r.Intn(4)]
+		put("  " + event + ":")
 		used := map[int]bool{}
 		for k := 0; k < 1+r.Intn(3); k++ {
 			ki := r.Intn(len(keys))
+			if event != "push" && ki/2 == 1 {
+				continue // tags / tags-ignore exist for push only
+			}
 			// branches and branches-ignore (etc.) are mutually exclusive
 			if used[ki/2] {
 				continue
